@@ -67,7 +67,10 @@ def make(rng, form, batch, D, N=3):
 
 def run_item(ctx, item):
     if item[0] == "matmul":
+        ctx.sample({"item": item, "workload": "all 9 ordered pairs of operand forms (translation vector, square matrix, D x (D+1) matrix) x batch shapes (none, 1, N), compared with explicit (D+1) x (D+1) numpy products"})
         return matmul(ctx, item[1])
+    if item[1] in (0, 1) if len(item) > 1 and isinstance(item[1], int) else False:
+        ctx.sample({"item": item})
     if item[0] == "euler_orders":
         return euler_orders(ctx, item[1])
     return case(ctx, item[1])
